@@ -14,7 +14,7 @@ pub const DEF: PropDef = PropDef {
     id: "C08",
     jobs,
     required,
-    rule: "one case = (history H1, clear, history H2) on one catalogue entry (region or FlatStack with each admissible index container), H2 being applied in lock-step to the cleared object and to a twin created by Default::default(); every returned index must be equal, every read of every index issued since the clear must describe the pushed value, and len/is_empty must agree; up to 5 clear/refill cycles per case. H1 leaves residue (pending equal item, saturated/spilled/u64 index containers, wide rows, trained dictionary / Huffman code via merge_regions); H2 starts with the item most likely to betray it. Bounded-exhaustive part: all (H1, H2) with |H1|,|H2| <= 3 over 3 values on 16 entries. Non-trivial = H1 and H2 both non-empty; distinct = distinct hash of (entry, operation list).",
+    rule: "one case = (history H1, clear, history H2) on one catalogue entry (region or FlatStack with each admissible index container), H2 being applied in lock-step to the cleared object and to a twin created by Default::default(); every returned index must be equal, every read of every index issued since the clear must describe the pushed value, and len/is_empty must agree; up to 5 clear/refill cycles per case. H1 leaves residue (pending equal item, saturated/spilled/u64 index containers, wide rows, trained dictionary / Huffman code via merge_regions); H2 starts with the item most likely to betray it. Bounded-exhaustive part: all (H1, H2) with |H1|,|H2| <= 3 (thorough: 4) over 3 values on 16 entries. Non-trivial = H1 and H2 both non-empty; distinct = distinct hash of (entry, operation list).",
     assumptions: &["capacities and Debug output are not compared (allocations and empty columns may be retained)"],
 };
 
@@ -140,7 +140,8 @@ fn exhaustive<E: Entry>(ctx: &mut Ctx) {
     let nforms = Live::<E>::nforms();
     // sequences of length 0..=3 over 3 letters
     let mut seqs: Vec<Vec<usize>> = vec![vec![]];
-    for len in 1..=3usize {
+    let maxlen = if ctx.tier == Tier::Thorough { 4usize } else { 3 };
+    for len in 1..=maxlen {
         for code in 0..3usize.pow(len as u32) {
             let mut s = Vec::new();
             let mut x = code;
